@@ -118,6 +118,17 @@ REGISTRY["C18"] = {
     "assumptions": MODEL_ASSUMPTIONS,
 }
 
+REGISTRY["C17"] = {
+    "engine": "engine_refs",
+    "theorems": [(A + "Refs", "Api.Refs.C17_closed"), (A + "RefsThm", "Api.Refs.C17_finite"), (A + "RefsThm", "Api.Refs.C17_once"),
+                 (A + "RefsThm", "Api.Refs.C17_all_refs"), (A + "TablesThm", "Api.Tables.C18_version_table")],
+    "partial": "closedness, finiteness (the builder terminates on every type graph, recursive ones included), exactly-once and the all_refs rule are "
+               "proved on type graphs; meta-schema validity, definitions_schema = inline $defs and the refusal of name clashes are decided by the engine",
+    "trusted_extra": ["jsonschema's check_schema as the meta-schema oracle"],
+    "assumptions": ["type graphs abstract classes to (name, occurrences of other names in the body); type_name overrides, generics and conversions "
+                    "changing the referenced type are seen only by the engine"],
+}
+
 LEVEL_NOTE = ("Trusted: Lean 4.33 kernel; axioms propext / Classical.choice / Quot.sound only (audited by #print axioms on every run, no sorry / "
               "native_decide / own axioms); the hand-written model, tied to /repo by the differential correspondence of this check (same cases to the "
               "real code and to the compiled Lean driver); tools/extract.py for the regenerated tables; CPython / typing / dataclasses. "
@@ -149,11 +160,15 @@ TEXT["C07"] = ("Kernel-checked theorem: whatever serialize emits for a well-type
                "settings (all 2^3 option records), on the dataclass fragment; the engine validates real serialized values against the real schema.")
 TEXT["C18"] = ("Kernel-checked theorem: the draft-07 / 2019-09 rewrite, applied at every level, accepts exactly the instances of the 2020-12 schema, for "
                "every schema over the emitted keywords and every datum; vocabulary and instances are also checked on the real output per dialect.")
+TEXT["C17"] = ("Kernel-checked theorems on the type-graph model of RefsExtractor and the builder: every $ref of the main schema and of every definition is a key "
+               "of $defs, the builder produces every schema with fuel |names|+1 (it cannot recurse for ever), definition keys are duplicate-free and the "
+               "all_refs rule; the model is compared with the $defs / $ref structure of real schemas on generated, recursive class graphs, and well-formedness "
+               "is checked with the dialect's meta-schema.")
 for k, v in TEXT.items():
     REGISTRY[k]["level_text"] = v
     REGISTRY[k]["level_note"] = LEVEL_NOTE
 
 # properties registered in MANIFEST.json (a property is claimed once its check is green on the unchanged tree)
-CLAIMED = ["C01", "C02", "C03", "C06", "C07", "C08", "C10", "C13", "C14", "C15", "C16", "C18"]
+CLAIMED = ["C01", "C02", "C03", "C06", "C07", "C08", "C10", "C13", "C14", "C15", "C16", "C17", "C18"]
 PENDING_REASON = "check under construction in this session (model and theorems exist, engine being registered); not yet claimed"
 NOT_CLAIMED = {f"C{i:02d}": PENDING_REASON for i in range(1, 21) if f"C{i:02d}" not in CLAIMED}
